@@ -15,6 +15,16 @@ CHECKS = {
         technique="exhaustive enumeration of short token strings per literal kind x delimiter context + rapidcheck random long tokens and writer grid, in-process against DFA recognisers transcribed from the Part 21 BNF and strtod/128-bit integer value functions",
         text="Every string up to a length bound over each kind's alphabet is fed to the attribute reader and to the instance reader of a fixture schema library; verdict, value and stream position are compared with recognisers written from the BNF. The writer is checked on a grid of integers near 2^k/10^k and reals with exponents -300..300 (token in grammar, reads back equal). Exhaustive for the enumerated sub-space, sampled beyond it.",
         note="Closed leniency table (NUMBER without decimal point / lower-case e; enumeration letter case) justified from reader source, listed in the evidence assumptions. Out-of-grammar STRING/BINARY bodies that are stored verbatim are counted, not asserted. Open finding F30 (stray '/' or '\\' swallowed by the token separator) is matched by signature."),
+    "C10": dict(
+        level="exploration", ref="DESIGN.md section 4 C10",
+        technique="property-based testing (Hypothesis): generated schema x population (cycles, complex instances, '#'/'('/';' inside strings and comments) x load order; differential oracle lazy loader vs eager reader vs the generator's model",
+        text="The lazy loader's index, forward/reverse reference tables (multisets), transitive dependency sets and the serialisation of instances loaded in a drawn order with repetitions are compared with the eager reader and with the model of the generated population.",
+        note="Cases where the eager reader itself fails on the conforming file are excluded and counted (they are C01/C08 violations). Keywords of complex instances in the index are not asserted (the loader records them under the empty name). Comments inside instances are excluded (finding F20)."),
+    "C11": dict(
+        level="exploration", ref="DESIGN.md section 4 C11",
+        technique="property-based testing (Hypothesis): INVERSE-heavy generated schemas x populations x loaded instance; oracle = referrer sets computed from the generator's model",
+        text="For each drawn instance x the lazy loader loads x in a fresh process and every inverse attribute of x (own and inherited) must hold exactly the model's referrers (type E or subtype, through attribute a, directly or as aggregate element), none missing/extra/twice.",
+        note="Populations in which a single-valued inverse has > 1 referrer violate the schema and are not asserted. Open finding F40: complex instances are invisible to the inverse resolution (excluded by construction, probed in ~5% of populations and classified by delta)."),
     "C13": dict(
         level="exploration", ref="DESIGN.md section 4 C13",
         technique="stateful property-based testing (rapidcheck rc::state) + exhaustive enumeration of short command sequences, list/dict reference model, ASan/UBSan build",
